@@ -356,6 +356,12 @@ def _config_dict(solver):
 
 
 def json_safe(x):
+    try:
+        from omegaconf import DictConfig, ListConfig, OmegaConf
+        if isinstance(x, (DictConfig, ListConfig)):
+            x = OmegaConf.to_container(x, resolve=True)
+    except ImportError:
+        pass
     if isinstance(x, dict):
         return {str(k): json_safe(v) for k, v in x.items()}
     if isinstance(x, (list, tuple)):
